@@ -196,58 +196,8 @@ Definition codegen_a64_case (i r : sexp) : verdict :=
   end.
 Definition run_codegen_a64 : string -> string := run_cases codegen_a64_case.
 
-(* ---------- modelrun command "heap-a64": the heap invariant (Sem/HeapCheck.v, C09) at every statement
-   boundary of the MARKED model code (whose unmarked form `codegen-a64` compares with the Rust
-   output), plus the measurements C10 needs ---------- *)
-From SCC Require Import Sem.HeapCheck Sem.A64Heap.
-
-Definition heap_check_a64 (p : prog) (cs : list acode) (argss : list (list Z)) : option string + (N * Z) :=
-  fold_left (fun acc args =>
-    match acc with
-    | inl (Some _) => acc
-    | _ =>
-        let ref := run_linear lin_fuel p args in
-        match snd ref with
-        | OExit _ =>
-            let '(got, _, st) := run_a64_heap a64_outer a64_inner cs args in
-            match first_violation st with
-            | Some why => inl (Some ("class=a64-heap-invariant args=" ++ show (sL sZ args) ++ " after " ++ n_to_string (boundaries st)
-                                     ++ " statement boundaries: " ++ why))
-            | None =>
-                if obs_eqb ref got then
-                  match acc with
-                  | inr (b, pk) => inr ((b + boundaries st)%N, Z.max pk (peak_in_use st))
-                  | _ => inr (boundaries st, peak_in_use st)
-                  end
-                else inl (Some ("class=a64-semantic-mismatch (marked code) args=" ++ show (sL sZ args) ++ " expected=" ++ show (s_obs ref)
-                                ++ " got=" ++ show (s_obs got)))
-            end
-        | _ => acc
-        end
-    end) argss (inl None).
-
-Definition heap_a64_case (i r : sexp) : verdict :=
-  match i with
-  | L [Q _; p; lc; argss] =>
-      match g_prog p, getN lc, getL (getL getZ) argss with
-      | Some p, Some lc, Some argss =>
-          match a64_compile_marked p lc with
-          | Err _ => VSkip "model panics (capacity)"
-          | Ok (cs, _, _) =>
-              match heap_check_a64 p cs argss with
-              | inl (Some why) => VViol why
-              | inl None => VOk "no-defined-run"
-              | inr (b, pk) =>
-                  VOk ("nt boundaries" ++ n_to_string (N.log2 (b + 1)) ++ " peak" ++ n_to_string (Z.to_N (Z.log2 (pk + 1)))
-                       ++ (if Nat.ltb lr_boundary (max_live (walk_prog p)) then " spills" else " nospill"))
-              end
-          end
-      | _, _, _ => VBad "input unreadable"
-      end
-  | _ => VBad "input shape"
-  end.
-Definition run_heap_a64 : string -> string := run_cases heap_a64_case.
-
+(* the modelrun commands "heap-a64" and "c10-a64" (C09 / C10 on the implementation's AArch64 code)
+   are in Model/RunHeapA64.v *)
 (* ---------- C14: assembler-level well-formedness of the implementation's output ---------- *)
 From SCC Require Import Sem.A64Wf Sem.LabelGuard.
 Open Scope string_scope.
